@@ -36,7 +36,7 @@ static const char *T0[] = {	/* literals, any, anchors, word boundaries */
 	"x", "xy", "x.y", ".x", "^x", "x$", "^x$", "^", "$", "\\<x", "x\\>", "\\<xy\\>", "x\\>y", ".\\<x", "^.x", "x.$", NULL};
 static const char *T1[] = {	/* brackets */
 	"[xy]", "[^x]", "[x-y]z", "[^x-y]", "x[[:digit:]]", "[[:alpha:]]x", "[^[:space:]x]", "[xy][^z]", "[]x]", "[^]x]y", "[x-]",
-	"[^](]x", "[^][](x)", "[(]x(y)", "[^[:digit:]](x)", NULL};
+	"[^](]x", "[^][](x)", "[(]x(y)", "[^[:digit:]](x)", "[x\\](y)", NULL};
 static const char *T2[] = {	/* quantifiers */
 	"x*", "x*y", "x+", "x+y", "x?y", "xy?", "x{2}", "x{1,2}y", "x{2,}", "x{0,1}y", ".*x", ".+x", "x.*y", "[xy]*z", "[^x]+y", "x*x", "x+x", ".*", "x{0}y", NULL};
 static const char *T3[] = {	/* groups and alternation */
